@@ -131,7 +131,13 @@ impl Zonefile {
     ) -> Result<Self, std::io::Error> {
         let mut buf = Self::new().writer();
         std::io::copy(read, &mut buf)?;
-        Ok(buf.into_inner())
+        let mut res = buf.into_inner();
+        // The whole file is here, so the last line is complete even if it
+        // isn't terminated by a line feed.
+        if res.buf.buf.len() > 1 && !res.buf.buf.ends_with(b"\n") {
+            res.extend_from_slice(b"\n");
+        }
+        Ok(res)
     }
 
     /// Get the current offset into the zonefile
@@ -158,6 +164,11 @@ impl<'a> From<&'a [u8]> for Zonefile {
     fn from(src: &'a [u8]) -> Self {
         let mut res = Self::with_capacity(src.len() + 1);
         res.extend_from_slice(src);
+        // The whole file is here, so the last line is complete even if it
+        // isn't terminated by a line feed.
+        if !src.is_empty() && !src.ends_with(b"\n") {
+            res.extend_from_slice(b"\n");
+        }
         res
     }
 }
